@@ -246,14 +246,24 @@ func runC04(run *Run, replay string) {
 	}
 	var lastLoc map[string]interface{}
 	o.OnScenario = func(s *Scenario, loc map[string]interface{}, coll []CollectRes) {
-		endScenario(lastLoc)
 		cur = s
 		lastLoc = loc
+		// the collection calls are queries too: the schema must be what it was before them
+		for i, p := range s.W.Paths {
+			if eq, diff := deepEqual(clones[i], p.Ctx.Schema); !eq {
+				run.Violate(Violation{Key: "C04/schema-modified-deep/collect", Rule: "the schema tree is structurally identical before and after reference collection",
+					Func: "CollectReferenceTargets/CollectReferenceOrigins", Detail: diff, Replay: loc})
+			}
+		}
+		before = fingerprintWorld(s.W)
+	}
+	o.BeforeCollect = func(s *Scenario, loc map[string]interface{}) {
+		endScenario(lastLoc)
+		cur = nil
 		clones = nil
 		for _, p := range s.W.Paths {
 			clones = append(clones, cloneSchema(p.Ctx.Schema))
 		}
-		before = fingerprintWorld(s.W)
 	}
 	omnibus(run, o, func(s *Scenario, p *PathData, q Query, res QResult, loc map[string]interface{}) {
 		run.Res.Evaluations++
